@@ -40,6 +40,12 @@ CACHES = [(CA + 'opacitycache.py::OpacityCache', 'opacity_dict', 'load_opacity')
 
 
 def run(ix, R):
+    _run(ix, R)
+    from rules.common import memo_obligation
+    memo_obligation(ix, R, 'M.memo', ['taurex/opacity/', 'taurex/cia/'], 'the opacity and CIA readers')
+
+
+def _run(ix, R):
     # ---- 1. pressure units
     for site, pexpr, kind in READERS:
         stmt = 'pressure grid = file value x factor to Pascal (%s)' % (
